@@ -490,11 +490,12 @@ def c_spec(inp: dict) -> str:
     return "SRaw"
 
 
-def oracle_tables(stream: bytes, extra_json: list[str] = ()) -> tuple[list[tuple[str, int]], dict[str, int], list[tuple[str, int]]]:
+def oracle_tables(stream: bytes, extra_json: list[str] = ()) -> tuple:
     """CPython's int() / json.loads() on every string the helpers could hand them for this stream:
     candidates are taken from str.splitlines of the whole decoded text (a superset is harmless)."""
     text = stream.decode("utf-8", errors="replace")
     ints: dict[str, int] = {}
+    int_fail: set[str] = set()
     ids: dict[str, int] = {}
     jtab: dict[str, int] = {}
     for line in text.splitlines():
@@ -505,7 +506,8 @@ def oracle_tables(stream: bytes, extra_json: list[str] = ()) -> tuple[list[tuple
                     try:
                         ints[v] = int(v)
                     except ValueError:
-                        pass
+                        if v.isascii() and len(v) <= 40:
+                            int_fail.add(v)
         for s in (line.strip(), line):
             if s:
                 try:
@@ -519,7 +521,7 @@ def oracle_tables(stream: bytes, extra_json: list[str] = ()) -> tuple[list[tuple
         except ValueError:
             continue
         jtab[s] = ids.setdefault(d, len(ids))
-    return sorted(ints.items()), ids, sorted(jtab.items())
+    return sorted(ints.items()), ids, sorted(jtab.items()), sorted(int_fail)
 
 
 def c_case(r: dict) -> str | None:
@@ -528,7 +530,7 @@ def c_case(r: dict) -> str | None:
     inp, per, whole = r["input"], r["per"], r["whole"]
     stream = stream_of(inp)
     e2e = r.get("e2e")
-    ints, ids, jtab = oracle_tables(stream, [t for t in whole["tev"] if isinstance(t, str)] if isinstance(whole["tev"], list) else [])
+    ints, ids, jtab, int_fail = oracle_tables(stream, [t for t in whole["tev"] if isinstance(t, str)] if isinstance(whole["tev"], list) else [])
     bad = not well_formed(stream)
     chunkings = [chunks_of(stream, c) for c in inp["chunkings"]]
 
@@ -551,7 +553,7 @@ def c_case(r: dict) -> str | None:
                 f"{nd_ids([row['get_nd'][0], row['get_nd'][1] == 'json'])}, "
                 f"{clist(cstr(bytes.fromhex(b)) for b in row['get_bin'][0])}))")
     ci = (f"{{| i_chunkings := {clist(clist(cstr(c) for c in cs) for cs in chunkings)}; i_spec := {c_spec(inp)}; "
-          f"i_int := {clist(cpair(cstr(k), cZ(v)) for k, v in ints)}; "
+          f"i_int := {clist(cpair(cstr(k), cZ(v)) for k, v in ints)}; i_int_fail := {clist(cstr(k) for k in int_fail)}; "
           f"i_json := {clist(cpair(cstr(k), str(v)) for k, v in jtab)} |}}")
     same_bytes = all(o["bytes"] == cs for o, cs in zip(per, chunkings))
     bl = "(i_chunkings i)" if same_bytes else clist(clist(cstr(b) for b in o["bytes"]) for o in per)
@@ -739,7 +741,7 @@ def main(chk: Check, replay: dict | None = None) -> int:
     # evidence but is neither a broken correspondence nor a reason to turn known findings into violations.
     dcodes = None
     if codes is not None:
-        ITEM = (1 << 8) | sum(1 << b for b in range(11, 19))
+        ITEM = (1 << 8) | sum(1 << b for b in range(11, 20))
         SHAPE = (1 << 9) | (1 << 10)
         dcodes = [(c & ~1 & 0xFF) | (1 if c & ITEM else 0) for c in codes]
         shape = [cases[i] for i, c in enumerate(codes) if c & SHAPE]
@@ -755,7 +757,7 @@ def main(chk: Check, replay: dict | None = None) -> int:
     if codes is not None:
         diag = {}
         names = {8: "ill-formed-flag", 9: "bytes", 10: "texts", 11: "lines", 12: "sse", 13: "events_text", 14: "ndjson",
-                 15: "end-to-end", 16: "encoder", 17: "same-stream", 18: "arity"}
+                 15: "end-to-end", 16: "encoder", 17: "same-stream", 18: "arity", 19: "int()-grammar"}
         for c in codes:
             for b, nme in names.items():
                 if (c >> b) & 1:
